@@ -2,7 +2,6 @@ package main
 
 import (
 	"fmt"
-	"go/types"
 	"strings"
 
 	"golang.org/x/tools/go/ssa"
@@ -14,6 +13,7 @@ func runC03(c *Ctx, tier string) {
 	r := NewReport("C03", "proof", tier, c)
 	r.Explanation = "The guarantee is framework-level and is decided once for all lints. (1) window-table: the decision table of lint.checkEffective (util.OnOrAfter inlined) is extracted from SSA with the time.Time comparisons kept as uninterpreted atoms and evaluated on every ordering of (effective, ineffective, target) over {before-zero, zero, 1, 2, 3}^3 against the specification (zero(e) ∨ t ≥ e) ∧ (zero(i) ∨ t < i); because instants are touched only through IsZero/Before/After/Equal the table covers every instant and every location, including the boundary instants of the statement. (2) window-binding: each CheckEffective passes the lint's EffectiveDate, IneffectiveDate and exactly NotBefore / ThisUpdate / NextUpdate of the linted object. (3) lifecycle: the decision tables of (*CertificateLint).execute, (*RevocationListLint).Execute and (*OcspResponseLint).Execute (window logic inlined) are evaluated on source × scope-gate × configuration outcome × applicability × all instant orderings: outside the window the outcome is a literal NE (or NA/fatal decided earlier) and the rule body's Execute is not called. (4) no-bypass: the only call sites of a lint implementation's Execute through the three lint interfaces are these three functions; the deprecated Lint wrapper copies all six metadata fields and delegates. (5) every registered EffectiveDate/IneffectiveDate folds to a constant UTC instant (so the window is a compile-time constant per lint). (6) result-loop: the decision tables of the three execute* loops show that the value stored under a lint's name is the value that lint's own life-cycle function returned — so an NE produced by (3) is what the caller sees for that lint."
 	r.Rule("window-table: checkEffective ≡ (zero(e) ∨ t ≥ e) ∧ (zero(i) ∨ t < i) on all orderings")
+	r.Rule("window-method: each kind's CheckEffective, helpers inlined, ≡ (zero(e) ∨ t ≥ e) ∧ (zero(i) ∨ t < i) over its own EffectiveDate/IneffectiveDate and the object's NotBefore/ThisUpdate/NextUpdate on all orderings")
 	r.Rule("window-binding: CheckEffective(l, obj) = checkEffective(l.EffectiveDate, l.IneffectiveDate, obj.<NotBefore|ThisUpdate|NextUpdate>)")
 	r.Rule("lifecycle: outside the window ⇒ literal NE/NA/Fatal and no call of the rule body")
 	r.Rule("no-bypass: interface Execute of lint implementations is invoked only from the three life-cycle functions")
@@ -23,8 +23,13 @@ func runC03(c *Ctx, tier string) {
 	r.Assumptions = []string{"lint implementations do not call each other's Execute through the framework (checked: no other invoke site)"}
 	r.Exhaustive = true
 
-	c03WindowTable(c, r)
-	c03Binding(c, r)
+	methodsOK := c03WindowMethods(c, r)
+	if c.FuncMaybe("lint", "checkEffective") != nil {
+		// the helper of the reference tree still exists: its own table and the way the
+		// three methods call it (implied by window-method, kept as a second view)
+		c03WindowTable(c, r)
+	}
+	c03Binding(c, r, methodsOK)
 	lcReport(c, r, "lifecycle", nil)
 	c03NoBypass(c, r)
 	c03Dates(c, r)
@@ -120,12 +125,109 @@ func c03WindowTable(c *Ctx, r *Report) {
 	r.Floor("window-table cases", 125, n)
 }
 
-func c03Binding(c *Ctx, r *Report) {
+// c03WindowMethods: the decision table of each kind's CheckEffective method, with
+// every module callee inlined, evaluated on all orderings of the lint's own
+// EffectiveDate / IneffectiveDate fields and the object's target field. This is
+// window-table and window-binding in one, independent of how the computation is
+// split into helpers.
+func c03WindowMethods(c *Ctx, r *Report) bool {
+	allOK := true
+	for _, k := range lcKinds {
+		fn := c.Method("lint", k.Recv, "CheckEffective")
+		id := k.Recv + ".CheckEffective"
+		outs, abort := Enumerate(fn, SymOpts{MaxDepth: 5})
+		if abort != "" || len(fn.Params) != 2 {
+			r.Unk("window-method", id, fn.Pos(), "table not extracted: "+abort)
+			allOK = false
+			continue
+		}
+		recv, obj := fn.Params[0].Name(), fn.Params[1].Name()
+		vals := []int64{-1, 0, 1, 2, 3}
+		bad, und := "", ""
+		n := 0
+		for _, e := range vals {
+			for _, iv := range vals {
+				for _, tt := range vals {
+					n++
+					tv := func(t *T) (int64, bool) {
+						s := t.String()
+						switch {
+						case strings.HasPrefix(s, recv+".") && strings.HasSuffix(s, ".IneffectiveDate"):
+							return iv, true
+						case strings.HasPrefix(s, recv+".") && strings.HasSuffix(s, ".EffectiveDate"):
+							return e, true
+						case s == obj+"."+k.Target:
+							return tt, true
+						}
+						return 0, false
+					}
+					oracle := func(t *T) (interface{}, bool) {
+						if t.Op != "call" {
+							return nil, false
+						}
+						var vs []int64
+						for _, a := range t.Args {
+							v, ok := tv(a)
+							if !ok {
+								return nil, false
+							}
+							vs = append(vs, v)
+						}
+						switch t.Name {
+						case "(time.Time).IsZero":
+							return vs[0] == 0, true
+						case "(time.Time).Before":
+							return vs[0] < vs[1], true
+						case "(time.Time).After":
+							return vs[0] > vs[1], true
+						case "(time.Time).Equal":
+							return vs[0] == vs[1], true
+						case "(time.Time).Compare":
+							return cmp3(vs[0], vs[1]), true
+						}
+						return nil, false
+					}
+					sel, err := Select(outs, oracle)
+					if err != nil || len(sel) != 1 || sel[0].Kind != "return" || len(sel[0].Results) != 1 {
+						und = fmt.Sprintf("table not evaluable at e=%d,i=%d,t=%d (%v, %d paths): the method observes something other than the order of its own EffectiveDate / IneffectiveDate and the object's %s", e, iv, tt, err, len(sel), k.Target)
+						continue
+					}
+					got, err := Eval(sel[0].Results[0], oracle)
+					if err != nil {
+						und = err.Error()
+						continue
+					}
+					want := (e == 0 || tt >= e) && (iv == 0 || tt < iv)
+					if got != want && bad == "" {
+						bad = fmt.Sprintf("%s with EffectiveDate=%d, IneffectiveDate=%d, %s=%d (instants, 0 = zero time) yields %v, the half-open window requires %v", id, e, iv, k.Target, tt, got, want)
+					}
+				}
+			}
+		}
+		switch {
+		case und != "":
+			r.Unk("window-method", id, fn.Pos(), und)
+			allOK = false
+		case bad != "":
+			r.Bad("window-method", id, fn.Pos(), bad)
+			allOK = false
+		default:
+			r.OK("window-method", id, fn.Pos(), true, fmt.Sprintf("%d orderings of (EffectiveDate, IneffectiveDate, %s): (zero(e) ∨ t ≥ e) ∧ (zero(i) ∨ t < i)", n, k.Target))
+		}
+	}
+	return allOK
+}
+
+func c03Binding(c *Ctx, r *Report, methodsOK bool) {
 	n := 0
 	for _, k := range lcKinds {
 		fn := c.Method("lint", k.Recv, "CheckEffective")
 		calls := callsTo(fn, "lint.checkEffective")
 		id := k.Recv + ".CheckEffective"
+		if methodsOK && (len(calls) != 1 || len(realReturns(fn)) != 1) {
+			n++ // decided by window-method, whatever the helper structure
+			continue
+		}
 		if len(calls) != 1 || len(realReturns(fn)) != 1 {
 			// the window may be computed inline instead: decided by the lifecycle table
 			r.Unk("window-binding", id, fn.Pos(), fmt.Sprintf("%d calls of checkEffective, %d returns (expected 1/1)", len(calls), len(realReturns(fn))))
@@ -184,7 +286,6 @@ func c03Binding(c *Ctx, r *Report) {
 // c03NoBypass: invoke-mode calls of Execute/CheckApplies on the three lint
 // interfaces appear only in the life-cycle functions.
 func c03NoBypass(c *Ctx, r *Report) {
-	ifaces := lintInterfaces(c)
 	allowed := map[*ssa.Function]bool{}
 	for _, k := range lcKinds {
 		allowed[c.Method("lint", k.Recv, k.Method)] = true
@@ -201,17 +302,23 @@ func c03NoBypass(c *Ctx, r *Report) {
 				return
 			}
 			recvT := call.Common().Value.Type()
-			isLintIface := false
-			for _, it := range ifaces {
-				if types.Identical(recvT.Underlying(), it) {
-					isLintIface = true
-				}
-			}
-			if !isLintIface {
+			if !isLintBodyIface(c, recvT) {
 				return
 			}
 			sites++
-			r.Check(allowed[f], "no-bypass", fname(f), in.Pos(), "life-cycle function",
+			ok = allowed[f]
+			if !ok && isNewFunc(f) {
+				// a helper newer than the rules that runs only on behalf of life-cycle functions
+				if owners, okOwn := ownerFuncs(c, f); okOwn && len(owners) > 0 {
+					ok = true
+					for _, o := range owners {
+						if !allowed[o] {
+							ok = false
+						}
+					}
+				}
+			}
+			r.Check(ok, "no-bypass", fname(f), in.Pos(), "life-cycle function",
 				"rule body Execute is invoked through a lint interface outside the life-cycle functions: the effective window (and scope/applicability gating) is bypassed")
 		})
 	}
